@@ -1240,6 +1240,10 @@ public:
     else if_constexpr_named(cond2, detail::rlbox_is_tainted_v<T_Rhs>)
     {
       using namespace detail;
+      static_assert(
+        std::is_same_v<T_Sbx,
+                       rlbox_get_wrapper_sandbox_t<std::remove_cv_t<T_Rhs>>>,
+        "Mixing tainted data from a different sandbox type");
       convert_type_non_class<T_Sbx,
                              adjust_type_direction::TO_SANDBOX,
                              adjust_type_context::EXAMPLE>(
@@ -1251,6 +1255,10 @@ public:
     else if_constexpr_named(cond3, detail::rlbox_is_tainted_volatile_v<T_Rhs>)
     {
       using namespace detail;
+      static_assert(
+        std::is_same_v<T_Sbx,
+                       rlbox_get_wrapper_sandbox_t<std::remove_cv_t<T_Rhs>>>,
+        "Mixing tainted data from a different sandbox type");
       convert_type_non_class<T_Sbx,
                              adjust_type_direction::NO_CHANGE,
                              adjust_type_context::EXAMPLE>(
@@ -1262,6 +1270,11 @@ public:
     else if_constexpr_named(cond4, detail::rlbox_is_sandbox_callback_v<T_Rhs>)
     {
       using T_RhsFunc = detail::rlbox_remove_wrapper_t<T_Rhs>;
+      static_assert(
+        std::is_same_v<
+          T_Sbx,
+          detail::rlbox_get_wrapper_sandbox_t<std::remove_cv_t<T_Rhs>>>,
+        "Mixing callbacks from a different sandbox type");
 
       // need to perform some typechecking to ensure we are assigning compatible
       // function pointer types only
